@@ -16,6 +16,9 @@ B=$(cargo test --offline 2>&1 | res); echo "with patch + demo: $B"
 git apply -R $S/patch.diff || { echo "cannot reverse patch"; exit 1; }
 C=$(cargo test --offline 2>&1 | res); echo "demo only (no patch): $C"
 cd /; git -C /repo worktree remove --force $CF
+# the crate's own test_data_dir_linux points XDG_DATA_HOME at /non/existent for the whole test process: a demonstration that creates its
+# user directory there would leave a learned-selection store behind that every later test run reads
+[ -d /non/existent ] && rm -rf /non/existent
 case "$A" in "43 passed 0 failed") ;; *) echo "NOT CONFIRMED: suite does not pass with the patch"; exit 1;; esac
 case "$B" in *" 0 failed") echo "NOT CONFIRMED: demo does not fail with the patch"; exit 1;; esac
 case "$C" in *" 0 failed") ;; *) echo "NOT CONFIRMED: demo fails without the patch"; exit 1;; esac
